@@ -22,16 +22,71 @@ RULE = ("base-request histories (C06 event machinery, base-heavy generator) on a
         "distinct by SHA-1 of the case record")
 
 
+def _exact_alignment(answers, log):
+    """-> [(answer, request)] when the answers are, in order, exactly the answers (command and both identifiers) of a subsequence
+    of the requests that leaves out optional requests only; else None"""
+    import functools
+    A, L = answers, log
+
+    @functools.lru_cache(maxsize=None)
+    def ok(ai, li):
+        if ai == len(A):
+            return all(r[4] for r in L[li:])
+        if li == len(L):
+            return False
+        r = L[li]
+        if (A[ai]["cmd"], A[ai]["hbh"], A[ai]["e2e"]) == r[:3] and ok(ai + 1, li + 1):
+            return True
+        return bool(r[4]) and ok(ai, li + 1)
+    if not ok(0, 0):
+        return None
+    out, ai, li = [], 0, 0
+    while ai < len(A):
+        r = L[li]
+        if (A[ai]["cmd"], A[ai]["hbh"], A[ai]["e2e"]) == r[:3] and ok(ai + 1, li + 1):
+            out.append((A[ai], r[:4]))
+            ai += 1
+        li += 1
+    return out
+
+
 def judge(run):
     vs = []
     answers = [m for m in run.final_written if m["cmd"] in (257, 280, 282) and not m["flags"] & 0x80]
-    reqs = list(run.requests)
     label = {257: "CEA", 280: "DWA", 282: "DPA"}
-    if len(answers) != len(reqs):
-        kind = "missing" if len(answers) < len(reqs) else "extra"
-        vs.append(V("every answered base request gets exactly one answer", f"count/{kind}",
-                    f"{len(answers)} answers for {len(reqs)} requests: answers {[(a['cmd'], a['hbh']) for a in answers]} requests {[(r[0], r[1]) for r in reqs]}"))
-    for i, (a, r) in enumerate(zip(answers, reqs)):
+    # requests in arrival order; potentially re-transmitted ones (T flag) may or may not be answered: an answer is matched with
+    # the next request that must be answered unless it is exactly the answer of an optional request standing before it
+    log = list(getattr(run, "req_log", None) or [r + (False,) for r in run.requests])
+    reqs, pairs, i = [r[:4] for r in log if not r[4]], [], 0
+    stray = []
+    exact = _exact_alignment(answers, log)
+    if exact is not None:
+        # every answer is exactly the answer of one request, in order, and only optional requests are left out
+        pairs, missing = exact, []
+    else:
+        for a in answers:
+            j = i
+            while j < len(log) and log[j][4] and (a["cmd"], a["hbh"], a["e2e"]) != log[j][:3]:
+                j += 1
+            if j == len(log):
+                stray.append(a)
+                continue
+            pairs.append((a, log[j][:4]))
+            i = j + 1
+        missing = [r for r in log[i:] if not r[4]]
+    for a in stray:
+        skipped = [r for r in log if r[4] and r[0] == a["cmd"]]
+        if skipped:
+            vs.append(V("the answer carries its request's Hop-by-Hop and End-to-End identifiers",
+                        f"identifiers/{label.get(a['cmd'])}/answer-to-a-retransmitted-request-with-other-ids",
+                        f"answer ({a['hbh']:#x},{a['e2e']:#x}); re-transmitted requests were {[(hex(r[1]), hex(r[2])) for r in skipped]}"))
+        else:
+            vs.append(V("every answered base request gets exactly one answer", "count/extra",
+                        f"answer {(a['cmd'], hex(a['hbh']))} matches no request; requests {[(r[0], hex(r[1])) for r in log]}"))
+    if missing:
+        vs.append(V("every answered base request gets exactly one answer", "count/missing",
+                    f"{len(answers)} answers; unanswered requests {[(r[0], hex(r[1])) for r in missing]}; answers {[(a['cmd'], hex(a['hbh'])) for a in answers]}"))
+    for i, (a, r) in enumerate(pairs):
         cmd, hbh, e2e, gen = r
         lab = label.get(cmd, str(cmd))
         if a["cmd"] != cmd:
@@ -71,6 +126,8 @@ def features(case, info):
         f.add("two-requests-in-one-segment")
     if "restart" in app:
         f.add("reconnect")
+    if "dwr-retx" in app or "cer-retx" in app:
+        f.add("retransmitted-request-same-e2e-new-hbh")
     if case.get("backlog"):
         f.add("outbound-backlog")
     n = sum(1 for e in app if e in ("cer", "dwr", "dpr", "dwr-pair", "app-req-pair-dwr"))
@@ -99,7 +156,7 @@ def main(ctx):
     col = common.run_shards(_collect, 8 if ctx.quick else 16, ctx.seed, n=120 if ctx.quick else 2500)
     for path, rec in common.load_replays(PID):
         col.record(rec["case"], run_case(rec["case"]), nontrivial=True, classes=["replay"])
-    ctx.required_classes = ["two-requests-in-one-segment", "reconnect", "outbound-backlog", "several-base-requests"]
+    ctx.required_classes = ["two-requests-in-one-segment", "reconnect", "outbound-backlog", "several-base-requests", "retransmitted-request-same-e2e-new-hbh"]
     ctx.assumptions = ["answered requests = valid CER (Closed responder / Open), valid DWR and valid DPR received while Open, as decided by the "
                        "C06 reference model; fair schedule with virtual-time settling"]
 
